@@ -6,7 +6,7 @@
    `c16 run <facts> <lists> <progs> <sched>` → the observation of one schedule (`invalid@k` if
                                                step k is not enabled)
 
-   facts : `gen` (regenerated from the source) or three digits `<get><ffiGet><eq>` (1 = clone under guard / `==` locks in address order)
+   facts : `gen` (regenerated from the source) or four digits `<get><ffiGet><eq><concat>` (1 = clone under guard / `==` locks in address order / concat holds both operands)
    lists : `L1.2.3;L;L4`        progs : threads `;`-separated, ops `,`-separated:
            g<l>.<i> get   f<l>.<i> ffi get   p<l>.<v> push   c<a>.<b> concat   h<l>.<v> contains
            s<l>.<i>.<j> swap   n<l> len   k<l> clone   d<l> drop   e<a>.<b> ==
@@ -57,9 +57,9 @@ def parseFacts (s : String) : Option Facts :=
   | "gen" => some RotoV.Gen.C16.facts
   | _ =>
     match s.toList with
-    | [g, f, e] =>
-      if [g, f, e].all (fun c => c == '0' || c == '1') then
-        some ⟨g == '1', f == '1', e == '1'⟩
+    | [g, f, e, c] =>
+      if [g, f, e, c].all (fun x => x == '0' || x == '1') then
+        some ⟨g == '1', f == '1', e == '1', c == '1'⟩
       else none
     | _ => none
 
@@ -110,7 +110,7 @@ def handle (args : List String) : String :=
   match args with
   | ["facts"] =>
     let f := RotoV.Gen.C16.facts
-    s!"get={f.getUnderGuard} ffiGet={f.ffiGetUnderGuard} eqOrdered={f.eqOrdered}"
+    s!"get={f.getUnderGuard} ffiGet={f.ffiGetUnderGuard} eqOrdered={f.eqOrdered} concatAtomic={f.concatAtomic}"
   | ["enum", f, ls, ps] =>
     match parseFacts f, parseLists ls, parseProgs ps with
     | some F, some lists, some progs =>
